@@ -454,8 +454,14 @@ func main() {
 		"replayed shares of other members, scaled/added/unrelated/identity/off-curve/nil points, wrong beacon shares, non-members, members whose key is not known, duplicates. " +
 		"direct evaluation per run: every admitted share is the sender's valid share for the block hash (and beacon), sets agree, no outsider; recovered signatures verify under the group key; " +
 		">= k honest members delivered => block generated. non-trivial = distinct run with at least one Byzantine message and at least one admitted share")
-	cs := hx.NewCases(a.Out, "From V.C15 Require Import Model Harness.", "case", "check", 12)
 	thorough := a.Tier == "thorough"
+	// a model case costs ~0.7 s of vm_compute (arithmetic modulo the 254-bit curve order); the driver
+	// evaluates all shards at once, so the thorough tier uses fewer, larger shards
+	perShard := 12
+	if thorough {
+		perShard = 50
+	}
+	cs := hx.NewCases(a.Out, "From V.C15 Require Import Model Harness.", "case", "check", perShard)
 
 	model.Param.SSSSThreshold = model.SSSS_THRESHOLD
 	model.Param.GroupMemberMax = model.GROUP_MAX_MEMBERS
